@@ -447,7 +447,7 @@ def check_retrieval(tname, inner, mid, outer, stats):
                 except ValueError:
                     continue
                 view = (str(sig), sorted((n, [expect.ident(f) for f in fs]) for n, fs in sig.sources.items() if n != '+depths'),
-                        sorted((repr(expect.ident(f)), d) for f, d in sig.sources['+depths'].items()))
+                        sorted((repr(expect.ident(f)), d) for f, d in sig.sources.get('+depths', {}).items()))
                 if rnd == 0:
                     first_views[label] = view
                 elif label in first_views and first_views[label] != view:
